@@ -107,6 +107,22 @@ class Message(SimpleRepr):
     def content(self):
         return self._content
 
+    def _simple_repr(self):
+        # cycle_id is stamped on the message by SynchronousComputationMixin.post_msg
+        r = super()._simple_repr()
+        if hasattr(self, "cycle_id"):
+            r["cycle_id"] = self.cycle_id
+        return r
+
+    @classmethod
+    def _from_repr(cls, r):
+        r = dict(r)
+        cycle_id = r.pop("cycle_id", None)
+        msg = super()._from_repr(r)
+        if cycle_id is not None:
+            msg.cycle_id = cycle_id
+        return msg
+
     def __str__(self):
         return f"Message({self.type})"
 
@@ -185,6 +201,8 @@ def message_type(msg_type: str, fields: List[str]):
             "__qualname__": "message_type",
             "__type__": self.__class__.__qualname__,
         }
+        if hasattr(self, "cycle_id"):
+            r["cycle_id"] = self.cycle_id  # restored as an extra field by from_repr
         for arg in fields:
             try:
                 val = getattr(self, arg)
